@@ -12,6 +12,7 @@ From PV Require Import Did.Model Did.Props Did.Genesis Chain.Model Chain.Run.
 From PV Require Import Node.Model Node.Proofs Node.Chain Chain.Footprint.
 From PV Require Generated.GenFootprint Generated.GenSchema.
 From PV Require Import Chain.SchemaProps.
+From PV Require Import Driver.Tok Driver.Driver Node.DriverTie.
 Import ListNotations.
 
 (** (1) whatever CheckTx / simulate / query calls are interleaved anywhere, the committed versions, the protocol phase
@@ -70,3 +71,15 @@ Print Assumptions C09_footprint_scanned.
 Theorem C09_keepers_hold_no_state : forallb keeper_field_stateless GenSchema.keeper_fields = true.
 Proof. exact keepers_stateless. Qed.
 Print Assumptions C09_keepers_hold_no_state.
+
+Local Open Scope string_scope.
+Local Open Scope list_scope.
+(** the tie to what is run: for the history-file interpreter itself (extracted and compared with the real application),
+    the committed versions after any protocol-respecting history are those of the node that saw the consensus events only *)
+Theorem C09_driver_ignores_mempool_and_queries : forall st (ls : list (list tok)),
+  d_versions st = [] -> legal_run (st, false) ls = true ->
+  versions_view (fst (run_cmds (st, false) ls)) =
+  d_chain st :: committed (fst (nexec (frame_of st) (cstart (d_chain st))
+                                      (consensus_only tx Z (list tok) (events_of st ls)))).
+Proof. exact driver_ignores_mempool_and_queries. Qed.
+Print Assumptions C09_driver_ignores_mempool_and_queries.
